@@ -33,6 +33,7 @@ type vAbGroup struct {
 	snBase       uint32 // sequence number of global packet 0 in this group
 	producer     int
 	lost         map[int]bool // global packet indices that never arrive
+	sampled      int          // packets of this group seen while sampling (0 = nSample): its run continues right after them
 }
 
 type vAbScript struct {
@@ -45,6 +46,13 @@ type vAbScript struct {
 	ticks   [][]int
 	rescale bool
 	lowbits bool // 32-bit payloads carry non-zero low 16 bits (non-negative values only)
+}
+
+func (s *vAbScript) sampledOf(gi int) int {
+	if n := s.groups[gi].sampled; n > 0 && n <= s.nSample {
+		return n
+	}
+	return s.nSample
 }
 
 func vAbVal(ch int, frame int) uint16 {
@@ -151,6 +159,9 @@ func (p *vAbProducer) samplePackets(d time.Duration) ([]*packets.Packet, error) 
 	var out []*packets.Packet
 	for idx := 0; idx < run.s.nSample; idx++ {
 		for _, gi := range p.groupsOf() {
+			if idx >= run.s.sampledOf(gi) {
+				continue
+			}
 			if q := run.makePacket(gi, idx); q != nil {
 				out = append(out, q)
 			}
@@ -279,6 +290,17 @@ func vGenAbScript(c *vCase) *vAbScript {
 		s.groups = append(s.groups, grp)
 	}
 	r.Shuffle(len(s.groups), func(i, j int) { s.groups[i], s.groups[j] = s.groups[j], s.groups[i] })
+	if ng > 1 && s.nSample >= 3 && vChance(r, 0.4) {
+		// the sampling phase caught fewer packets of some groups: their runs start earlier and must be trimmed
+		for gi := 1; gi < ng; gi++ {
+			if vChance(r, 0.6) {
+				s.groups[gi].sampled = s.nSample - 1 - r.Intn(2)
+				if s.groups[gi].sampled < 2 {
+					s.groups[gi].sampled = 2 // the sample rate needs two time-stamped packets per group
+				}
+			}
+		}
+	}
 	end := s.nSample + s.nScript
 	for gi := range s.groups {
 		g := &s.groups[gi]
@@ -359,7 +381,7 @@ func (s *vAbScript) String() string {
 			lost = append(lost, k)
 		}
 		sort.Ints(lost)
-		gs = append(gs, fmt.Sprintf("{first=%d n=%d sn0=%d prod=%d lost=%v}", g.first, g.nchan, g.snBase, g.producer, lost))
+		gs = append(gs, fmt.Sprintf("{first=%d n=%d sn0=%d prod=%d sampled=%d lost=%v}", g.first, g.nchan, g.snBase, g.producer, g.sampled, lost))
 	}
 	return fmt.Sprintf("fpp=%d bits=%d low=%v rescale=%v nSample=%d nScript=%d groups=%s ticks=%v", s.fpp, s.bits, s.lowbits, s.rescale,
 		s.nSample, s.nScript, strings.Join(gs, ""), s.ticks)
@@ -372,7 +394,7 @@ func (s *vAbScript) stats(c *vCase) {
 	next := make([]int, ng)
 	end := s.nSample + s.nScript
 	for gi := range next {
-		next[gi] = s.nSample
+		next[gi] = s.sampledOf(gi)
 	}
 	for _, row := range s.ticks {
 		leftover := make([]bool, ng)
@@ -482,7 +504,7 @@ func vRunAbacoOnce(c *vCase, s *vAbScript, rep int) {
 	run := &vAbRun{s: s, nextIdx: make([]int, len(s.groups)), delivered: make([][]int, len(s.groups)),
 		calls: make([]int, s.nprod), starts: make([]int, s.nprod), stops: make([]int, s.nprod)}
 	for gi := range run.nextIdx {
-		run.nextIdx[gi] = s.nSample
+		run.nextIdx[gi] = s.sampledOf(gi)
 	}
 	run.backlog = func() int { return len(as.buffersChan) }
 	as.producers = nil
